@@ -377,12 +377,12 @@ func relay(dir string, src, dst *bufConn, f mitmFunc, log *wireLog, done *sync.W
 // ---- one connection ------------------------------------------------------------------------------------
 
 type endResult struct {
-	err     error
+	err      error
 	panicked string
-	hung    bool
-	state   gmtls.ConnectionState
-	ekm     []byte
-	done    bool // Handshake returned nil
+	hung     bool
+	state    gmtls.ConnectionState
+	ekm      []byte
+	done     bool // Handshake returned nil
 }
 
 type pairResult struct {
